@@ -341,9 +341,24 @@ where
         // while shrinking, only failures with the signature of the first failure count, so
         // the minimal case belongs to the same root cause
         let first_sig: RefCell<Option<String>> = RefCell::new(None);
+        // shrinking effort is bounded (minimality only, never the verdict): 90 s after the first
+        // failure every further candidate counts as passing, so the search settles on its best
+        let shrink_started: RefCell<Option<std::time::Instant>> = RefCell::new(None);
         let stats = RefCell::new(SubReport::new(sub));
         let ignore_snapshot: BTreeSet<String> = shared.ignore.lock().unwrap().clone();
+        // a shard stops early after 300 further failures whose signature was already reported in
+        // this run (not a known finding): on a badly broken tree every remaining case fails again,
+        // and a failing case can be far more expensive than a passing one
+        let repeats = RefCell::new(0usize);
         let result = runner.run(&strat, |v| {
+            if *repeats.borrow() > 300 {
+                return Ok(());
+            }
+            if let Some(t0) = *shrink_started.borrow() {
+                if t0.elapsed().as_secs() >= 90 {
+                    return Ok(());
+                }
+            }
             let r = test(&v);
             match r {
                 Ok(out) => {
@@ -362,6 +377,9 @@ where
                 }
                 Err(f) => {
                     if ignore_snapshot.contains(&f.signature) {
+                        if !ctx.known.contains(&f.signature) {
+                            *repeats.borrow_mut() += 1;
+                        }
                         if !*failed.borrow() {
                             let mut st = stats.borrow_mut();
                             st.evaluations += 1;
@@ -381,13 +399,20 @@ where
                             }
                         }
                         *failed.borrow_mut() = true;
+                        let mut ss = shrink_started.borrow_mut();
+                        if ss.is_none() {
+                            *ss = Some(std::time::Instant::now());
+                        }
                         Err(TestCaseError::fail(f.signature))
                     }
                 }
             }
         });
-        let st = stats.into_inner();
+        let mut st = stats.into_inner();
         let done = st.evaluations;
+        if *repeats.borrow() > 300 {
+            st.notes.push(format!("{} shard {} stopped early after 300 further failures with signatures already reported in this run", sub, shard));
+        }
         rep.merge(st);
         match result {
             Ok(()) => break,
